@@ -51,7 +51,7 @@ func (e *kvElection) heartbeatLoop(ctx context.Context) {
 						)...,
 					)
 					if failureCount >= int32(maxHealthFailures) {
-						e.handleHealthCheckFailure()
+						e.handleHealthCheckFailure(ctx)
 						return
 					}
 					continue
@@ -87,7 +87,7 @@ func (e *kvElection) heartbeatLoop(ctx context.Context) {
 				)
 				e.recordFailure("marshal_error")
 				if consecutiveFailures >= maxFailures {
-					e.handleHeartbeatFailure(err)
+					e.handleHeartbeatFailure(ctx, err)
 					return
 				}
 				continue
@@ -155,7 +155,7 @@ func (e *kvElection) heartbeatLoop(ctx context.Context) {
 						)...,
 					)
 					e.recordFailure(errorType)
-					e.handleHeartbeatFailure(updateErr)
+					e.handleHeartbeatFailure(ctx, updateErr)
 					// Revision mismatch errors contain "revision mismatch" in the
 					// message. Who took over is looked up for the log only, after
 					// the demotion: the read may be slow or hang.
@@ -176,13 +176,25 @@ func (e *kvElection) heartbeatLoop(ctx context.Context) {
 				)
 				e.recordFailure(errorType)
 				if consecutiveFailures >= maxFailures {
-					e.handleHeartbeatFailure(updateErr)
+					e.handleHeartbeatFailure(ctx, updateErr)
 					return
 				}
 				continue
 			}
 
-			e.revision.Store(newRev)
+			// The answer belongs to the term this loop serves. Once that term is
+			// over the revision is not this loop's to set: the instance may be
+			// leading a new term, with a record of its own, by now (the term
+			// context is cancelled under mu).
+			e.mu.Lock()
+			stale := ctx.Err() != nil
+			if !stale {
+				e.revision.Store(newRev)
+			}
+			e.mu.Unlock()
+			if stale {
+				return
+			}
 			if consecutiveFailures > 0 {
 				consecutiveFailures = 0
 				log := e.getLogger()
@@ -205,7 +217,7 @@ func (e *kvElection) heartbeatLoop(ctx context.Context) {
 	}
 }
 
-func (e *kvElection) handleHeartbeatFailure(err error) {
+func (e *kvElection) handleHeartbeatFailure(termCtx context.Context, err error) {
 	log := e.getLogger()
 	log.Error("demoting_due_to_heartbeat_failure",
 		append(e.logWithContext(e.logCtx()),
@@ -214,14 +226,14 @@ func (e *kvElection) handleHeartbeatFailure(err error) {
 		)...,
 	)
 
-	if !e.becomeFollower() {
+	if !e.becomeFollowerOfTerm(termCtx) {
 		// somebody else already noticed the loss and ran the callback
 		return
 	}
 	e.runOnDemote("heartbeat_failure")
 }
 
-func (e *kvElection) handleHealthCheckFailure() {
+func (e *kvElection) handleHealthCheckFailure(termCtx context.Context) {
 	log := e.getLogger()
 	failureCount := e.healthFailureCount.Load()
 	log.Error("demoting_due_to_health_check_failure",
@@ -230,7 +242,7 @@ func (e *kvElection) handleHealthCheckFailure() {
 		)...,
 	)
 
-	if !e.becomeFollower() {
+	if !e.becomeFollowerOfTerm(termCtx) {
 		// somebody else already noticed the loss and ran the callback
 		return
 	}
